@@ -52,6 +52,7 @@ TITLES = [
     "Spag Bol", "Lasagne", "Same", "Same", "Same", "same", "Tikka & Masala", "It's \"good\"", "日本のカレー", "Crème brûlée",
     "A", "B", "a", "Z", "É", "e", "100 ways", "Dal: the basics", "Roti (plain)", "Naan -- fast", "x > y", "Tea, two ways",
     "\U0001F35D pasta", "Äpfel", "apple", "Apple", "Zebra cake",
+    "Bread \\<quick\\>", "x<y", "a &amp;amp; b", "1 < 2 > 0", "Quick \\<easy\\> bakes", "R&amp;D \\<b\\>bold\\</b\\>",
 ]
 PREPS = ["for", "serves", "serve", "to serve", "makes", "serving", "For", "SERVES", "to make", "to  serves",
          "For", "MAKES", "Serves", "TO SERVE", "To Make", "Serving", "fOr", "Makes"]
@@ -260,6 +261,11 @@ def recipe_text(rng: random.Random, title: Optional[str], servings: Optional[int
                           f"bake(mix({a}, {b2}, {c3}), {c4})", "```", ""]
         else:
             lines += [f"    {q} {a}", f"    {rng.choice(['1 tsp', '50ml', '4'])} {b2}", f"    mix({a}, {b2})", ""]
+        if rng.random() < 0.2:
+            # a sub recipe that is REFERENCED twice (so not inlined: it gets an id= anchor and href="#..." links) and
+            # whose name has no ASCII letter or digit
+            nm = rng.choice(["\u9171", "\u0421\u043e\u0443\u0441", "\U0001F35D", "\u00e9\u00e8"])
+            lines[-1:-1] = [f"    {nm} = stir(2 soy, 1 honey)", f"    glaze(1/2 {nm}, 3 wings)", f"    dip(1/2 {nm}, 1 bread)"]
         if rng.random() < 0.3:
             # ingredients WITHOUT a leading quantity whose description holds a scaled number
             lines[-1:-1] = [f"    {rng.choice(['rosemary', 'bay', 'lime'])} {{{rng.choice(['4', '6', '3'])} {rng.choice(['sprigs', 'leaves', 'wedges'])}}}"]
